@@ -37,7 +37,7 @@ def paramOfSexp : Sexp → Option Param
     pure { ty := ← ty.asStr, iface := ← ifc.asBool, impls := ← impls.mapM Sexp.asStr }
   | _ => none
 
-def candOfSexp : Sexp → Option Cand
+def candOfSexp : Sexp → Option OpCand
   | .list [fn, l, r] => do pure { fn := ← fn.asStr, l := ← paramOfSexp l, r := ← paramOfSexp r }
   | _ => none
 
@@ -65,37 +65,36 @@ def checkResSexp : CheckRes → Sexp
   | .ok => .list [.atom "ok"]
   | .missing fn op => .list [.atom "missing", Sexp.str fn, Sexp.str op]
   | .badSignature fn op => .list [.atom "badsig", Sexp.str fn, Sexp.str op]
-  | .panic fn op => .list [.atom "panic", Sexp.str fn, Sexp.str op]
 
-def bad : Sexp := .list [.atom "bad-request"]
+def badW : Sexp := .list [.atom "badW-request"]
 
 def handleWalk : List Sexp → Sexp
   | [.atom "walkevents", n] =>
     match Node.ofSexp n with
     | some n => eventsResp (walk Gen.walkTargets Visitor.idle.logged (drvFuel n) n ((), []))
-    | none => bad
+    | none => badW
   | [.atom "walkreplace", .atom mode, k, n] =>
     match k.asNat, Node.ofSexp n with
     | some k, some n => eventsResp (walk Gen.walkTargets (replacer mode k).logged (drvFuel n) n ((), []))
-    | _, _ => bad
+    | _, _ => badW
   | [.atom "patchops", tbl, tt, n] =>
     match opTableOfSexp tbl, tyTableOfSexp tt, Node.ofSexp n with
     | some ops, some tt, some n =>
       match patchOperators Gen.walkTargets ops (tyOfTable tt) n with
       | some n' => .list [.atom "ok", n'.toSexp]
       | none => .list [.atom "panic"]
-    | _, _, _ => bad
+    | _, _, _ => badW
   | [.atom "explicitform", tbl, tt, n] =>
     match opTableOfSexp tbl, tyTableOfSexp tt, Node.ofSexp n with
     | some ops, some tt, some n => .list [.atom "ok", (explicitCallForm ops (tyOfTable tt) n).toSexp]
-    | _, _, _ => bad
+    | _, _, _ => badW
   | [.atom "configcheck", .list types, .list ops] =>
     match types.mapM fnTagOfSexp, ops.mapM (fun
         | .list (op :: fns) => do pure (← op.asStr, ← fns.mapM Sexp.asStr)
         | _ => none) with
     | some types, some ops => checkResSexp (configCheck types ops)
-    | _, _ => bad
-  | _ => bad
+    | _, _ => badW
+  | _ => badW
 
 def walkHandlers : List (String × (List Sexp → Sexp)) :=
   [("walkevents", handleWalk), ("walkreplace", handleWalk), ("patchops", handleWalk),
